@@ -38,13 +38,13 @@ def is_jwk(value: Dict[str, Any]) -> None:
         raise ValueError("must be a JWK")
 
 
-def in_choices(choices: list[str]) -> Callable[[Union[str, list[str]]], None]:
+def in_choices(choices: list[str], multiple: bool = False) -> Callable[[Union[str, list[str]]], None]:
     def _is_one_of(value: str | list[str]) -> None:
-        if isinstance(value, list):
-            if not all(v in choices for v in value):
+        if multiple:
+            if not isinstance(value, list) or not all(isinstance(v, str) and v in choices for v in value):
                 raise ValueError(f"must be one of {choices}")
 
-        elif value not in choices:
+        elif not isinstance(value, str) or value not in choices:
             raise ValueError(f"must be one of {choices}")
 
     return _is_one_of
@@ -147,7 +147,7 @@ JWK_PARAMETER_REGISTRY = {
             "unwrapKey",
             "deriveKey",
             "deriveBits",
-        ]),
+        ], multiple=True),
     ),
     "alg": KeyParameter("Algorithm", is_str),
     "kid": KeyParameter("Key ID", is_str),
